@@ -90,7 +90,8 @@ def short_type(t):
 def strip_casts(n):
     while n is not None and (n.get("k") in CASTS or n.get("k") in ("CXXDefaultArgExpr",)
                              or (n.get("k") in ("CXXConstructExpr", "CXXTemporaryObjectExpr")
-                                 and len(n.get("c") or []) == 1 and (n.get("copy") or n.get("elidable")))):
+                                 and len(n.get("c") or []) == 1 and (n.get("copy") or n.get("elidable")
+                                                                     or "__normal_iterator" in n.get("t", "")))):
         n = n["c"][0]
     return n
 
@@ -110,7 +111,8 @@ class Sym:
         "log": sp.log, "std::log": sp.log, "std::min": sp.Min, "std::max": sp.Max, "tanh": sp.tanh, "std::tanh": sp.tanh,
     }
 
-    def __init__(self, P, F, inline_locals=True, env=None, name_only=False):
+    def __init__(self, P, F, inline_locals=True, env=None, name_only=False, hook=None):
+        self.hook = hook             # hook(node) -> sympy term or None (custom abstraction)
         self.P = P
         self.F = F
         self.inline_locals = inline_locals
@@ -160,6 +162,10 @@ class Sym:
         k = n.get("k")
         c = n.get("c") or []
         rec = lambda x: self(x, depth + 1)
+        if self.hook is not None:
+            h = self.hook(n)
+            if h is not None:
+                return h
         if k == "IntegerLiteral":
             return sp.Integer(n["v"])
         if k == "FloatingLiteral":
